@@ -450,12 +450,27 @@ func (s *c19State) next() *c19Act {
 		}
 		nax := 1 + rng.Intn(x.d.Dims())
 		axes := s.ownedInts("reduce-axes", rng.Perm(x.d.Dims())[:nax]...)
-		name := []string{"Sum", "Max", "Argmax"}[rng.Intn(3)]
+		name := []string{"Sum", "Max", "Argmax", "Norm"}[rng.Intn(4)]
+		if name == "Norm" && x.kind != "f64" {
+			name = "Sum"
+		}
+		ord := []tensor.NormOrder{tensor.Norm(2), tensor.Norm(1), tensor.FrobeniusNorm(), tensor.UnorderedNorm(), tensor.InfNorm(), tensor.Norm(-1)}[rng.Intn(6)]
+		whole := rng.Intn(2) == 0
 		a := &c19Act{name: name, operand: []*c19T{x}}
 		a.run = func() error {
 			var r tensor.Tensor
 			var err error
 			switch name {
+			case "Norm":
+				// a norm of the whole tensor, or along the (caller-owned) axes
+				if whole || len(axes) > 2 {
+					r, err = x.d.Norm(ord)
+				} else {
+					r, err = x.d.Norm(ord, axes...)
+				}
+				if rd, ok := r.(*tensor.Dense); ok && rd == nil {
+					r = nil
+				}
 			case "Sum":
 				r, err = x.d.Sum(axes...)
 			case "Max":
